@@ -237,20 +237,92 @@ def sizes(ctx, quick, thorough):
 
 # ------------------------------------------------------------------ properties
 
+SMALL_ALPHABET = None
+def small_alphabet():
+    H = hexs
+    return ['add / %s 2' % H(b'a'), 'add / %s 7' % H(b'a'), 'add / %s 1' % H(b'b'), 'add / %s 8' % H(b'a'),
+            'add /0 - 2', 'add /0 - 5', 'add /0 %s 2' % H(b'a'), 'remove / %s' % H(b'a'), 'remove / %s' % H(b'b.a'),
+            'remove_elem / 0', 'remove_elem /0 0', 'set_int_elem /0 -1 5', 'set_string_elem /0 0 %s' % H(b'x'),
+            'set_option 128 1', 'set_int /0 7', 'add / - 2']
+
+def exhaustive_histories(depth):
+    """every sequence over the small operation alphabet up to `depth`, each from a fresh configuration"""
+    import itertools
+    alpha = small_alphabet()
+    def fn(impl, rng, stats):
+        for l in range(1, depth + 1):
+            for seq in itertools.product(range(len(alpha)), repeat=l):
+                impl.do('init')
+                for i in seq:
+                    impl.do(alpha[i])
+                impl.do('dump'); impl.do('wf')
+                stats['exhaustive:len%d' % l] = stats.get('exhaustive:len%d' % l, 0) + 1
+    return fn
+
 def run_C04(ctx):
     s, n = sizes(ctx, (6, 250), (40, 600))
+    d = 3 if ctx['tier'] == 'quick' else 4
+    correspondence(ctx, [exhaustive_histories(d)], proj_shape, oracle_wf, 'C04 well-formedness', 'exhaustive<=%d' % d)
+    ctx['cov']['exhaustive_histories'] = {'alphabet': small_alphabet(), 'max_len': d}
     api_correspondence(ctx, ['structure'], s, n, proj_shape, oracle_wf, 'C04 well-formedness')
 
 def run_C05(ctx):
     s, n = sizes(ctx, (6, 250), (40, 600))
+    d = 3 if ctx['tier'] == 'quick' else 4
+    correspondence(ctx, [exhaustive_histories(d)], proj_full, None, 'C05 ordered-tree behaviour', 'exhaustive<=%d' % d)
+    ctx['cov']['exhaustive_histories'] = {'alphabet': small_alphabet(), 'max_len': d}
     api_correspondence(ctx, ['structure', 'hooks'], s, n, proj_full, None, 'C05 ordered-tree behaviour')
 
 def run_C06(ctx):
     s, n = sizes(ctx, (6, 200), (40, 500))
     api_correspondence(ctx, ['lookup'], s, n, proj_lookup, oracle_lookup, 'C06 path lookup')
 
+def c07_grid(impl, rng, stats):
+    """the property's grid, enumerated: stored type x boundary value x accessor family x auto-convert"""
+    H = hexs
+    kinds = ['int', 'int64', 'float', 'bool', 'string']
+    pools = {'int': gen_api.INT_POOL, 'int64': gen_api.INT64_POOL, 'float': gen_api.DBL_POOL, 'bool': [0, 1, 2], 'string': [b'', b'x', None]}
+    for auto in (0, 1):
+        impl.do('init')
+        impl.do('set_option 1 %d' % auto)
+        names = {'int': b'i', 'int64': b'l', 'float': b'f', 'bool': b'b', 'string': b's'}
+        tcode = {'int': 2, 'int64': 3, 'float': 4, 'string': 5, 'bool': 6}
+        for k in kinds:
+            impl.do('add / %s %d' % (H(names[k]), tcode[k]))
+        impl.do('add / %s 8' % H(b'L'))
+        for k in kinds:
+            impl.do('add /5 - %d' % tcode[k])
+        targets = [('/%d' % i, names[k], None) for i, k in enumerate(kinds)] + [('/5/%d' % i, None, i) for i in range(5)]
+        n = 0
+        for path, name, idx in targets:
+            for k in kinds:
+                for v in pools[k]:
+                    if k in ('int', 'int64', 'bool'):
+                        arg = str(v)
+                    elif k == 'float':
+                        arg = '%016x' % v
+                    else:
+                        arg = H(v)
+                    if idx is None:
+                        impl.do('set_%s %s %s' % (k, path, arg))
+                    else:
+                        impl.do('set_%s_elem /5 %d %s' % (k, idx, arg))
+                    for g in kinds:
+                        impl.do('get %s %s' % (g, path))
+                    g = kinds[n % 5]; n += 1
+                    if name is not None:
+                        impl.do('lookup_val %s / %s' % (g, H(name)))
+                        impl.do('clookup_val %s %s' % (g, H(name)))
+                    else:
+                        impl.do('get_elem_val %s /5 %d' % (g, idx))
+                        impl.do('clookup_val %s %s' % (g, H(b'L.[%d]' % idx)))
+                    stats['c07:grid:%s' % k] = stats.get('c07:grid:%s' % k, 0) + 1
+        impl.do('dump')
+
 def run_C07(ctx):
-    s, n = sizes(ctx, (6, 300), (40, 800))
+    s, n = sizes(ctx, (4, 250), (40, 800))
+    correspondence(ctx, [c07_grid], proj_convert, oracle_touched, 'C07 typed get/set', 'grid')
+    ctx['cov']['exhaustive_grid'] = 'stored type x boundary value pool x set kind x get kind x auto-convert off/on (direct, by-name, by-path, by-index)'
     api_correspondence(ctx, ['convert'], s, n, proj_convert, oracle_touched, 'C07 typed get/set')
 
 def run_C16(ctx):
